@@ -105,15 +105,27 @@ class StorageReplayer:
         return self.st
 
     def close(self):
+        # (under a watchdog: a storage whose locks were left held must not hang the check at clean-up)
+        import signal
+
+        def _blocked(signum, frame):
+            raise _Blocked()
+        old = signal.signal(signal.SIGALRM, _blocked)
         try:
-            if self.t is not None:
-                self.st.tpc_abort(self.t)
-        except Exception:
-            pass
-        try:
-            self.st.close()
-        except Exception:
-            pass
+            signal.setitimer(signal.ITIMER_REAL, 10)
+            try:
+                if self.t is not None:
+                    self.st.tpc_abort(self.t)
+            except (Exception, _Blocked):
+                pass
+            signal.setitimer(signal.ITIMER_REAL, 10)
+            try:
+                self.st.close()
+            except (Exception, _Blocked):
+                pass
+        finally:
+            signal.setitimer(signal.ITIMER_REAL, 0)
+            signal.signal(signal.SIGALRM, old)
         if self.kind == 'file':
             shutil.rmtree(self.dir, ignore_errors=True)
 
@@ -496,6 +508,37 @@ FILE_INVARIANTS = ['TypeOK', 'TidsStrictlyIncrease', 'NoLostUpdate', 'StoredIsMe
 PROPERTIES = ['AbortRestores', 'OnlyFinishChangesHistory', 'WrongTxnNoEffect', 'NextCanBegin', 'UndoSemantics']
 
 
+def _queries(rp, a, step, sparse, rng, ltid):
+    """the reads after a call, under a watchdog: a query that never returns is a divergence, not a hung check"""
+    import signal
+
+    def _blocked(signum, frame):
+        raise _Blocked()
+    old = signal.signal(signal.SIGALRM, _blocked)
+    signal.setitimer(signal.ITIMER_REAL, rp.opts.get('query_timeout', 60))
+    try:
+        if sparse and ALIASES.get(a, a) not in ('Finish', 'CloseReopen', 'Init'):
+            # a reader racing with the commit: while the transaction is voted it loads the oldest and
+            # then the most recently committed object (the pooled read buffer is refilled next to the
+            # voted bytes); otherwise an occasional single read (see DESIGN 6/C05)
+            h = norm(step['state']['hist'])
+            if a == 'Vote' and h and h[0]['recs'] and h[-1]['recs']:
+                rp.poke_oid(h[0]['recs'][0]['oid'])
+                rp.poke_oid(h[-1]['recs'][-1]['oid'])
+            elif rng.random() < 0.2:
+                rp.poke(rng)
+            return []
+        if sparse and a == 'Finish':
+            h = norm(step['state']['hist'])
+            return rp.compare(step['state']['obs'], first=[r['oid'] for r in h[-1]['recs']][::-1], hist=h, ltid=ltid)
+        return rp.compare(step['state']['obs'], hist=norm(step['state']['hist']), ltid=ltid)
+    except _Blocked:
+        return ['queries BLOCKED after %s (a read did not return within the time limit)' % a]
+    finally:
+        signal.setitimer(signal.ITIMER_REAL, 0)
+        signal.signal(signal.SIGALRM, old)
+
+
 def replay_behaviour(job):
     """job = (behaviour file path | parsed steps, kind, consts, workdir, opts).  Returns a result dict."""
     from collections import Counter
@@ -524,21 +567,7 @@ def replay_behaviour(job):
                 break
             if not mm:
                 what = 'obs'
-                if sparse and ALIASES.get(a, a) not in ('Finish', 'CloseReopen', 'Init'):
-                    # a reader racing with the commit: while the transaction is voted it loads the oldest and
-                    # then the most recently committed object (the pooled read buffer is refilled next to the
-                    # voted bytes); otherwise an occasional single read (see DESIGN 6/C05)
-                    h = norm(step['state']['hist'])
-                    if a == 'Vote' and h and h[0]['recs'] and h[-1]['recs']:
-                        rp.poke_oid(h[0]['recs'][0]['oid'])
-                        rp.poke_oid(h[-1]['recs'][-1]['oid'])
-                    elif rng.random() < 0.2:
-                        rp.poke(rng)
-                elif sparse and a == 'Finish':
-                    h = norm(step['state']['hist'])
-                    mm = rp.compare(step['state']['obs'], first=[r['oid'] for r in h[-1]['recs']][::-1], hist=h, ltid=ltid)
-                else:
-                    mm = rp.compare(step['state']['obs'], hist=norm(step['state']['hist']), ltid=ltid)
+                mm = _queries(rp, a, step, sparse, rng, ltid)
             if not mm and kind == 'file' and opts and opts.get('bytes_check'):
                 mm = rp.bytes_check(ALIASES.get(a, a), norm(step['state']['res']))
                 what = 'bytes'
